@@ -33,7 +33,7 @@ Lemma ex3_runs :
                   t81_decode_arith s = Some [(3, 2, [ex2_b 1; ex2_b 2; ex2_b 3; ex2_b 5; ex2_b 6; ex2_b 7]);
                                              (2, 2, [ex2_b 7; ex2_b (-7); ex2_b 3; ex2_b 0])].
 Proof.
-  eexists. eexists. split; [vm_compute; reflexivity|]. split; vm_compute; reflexivity.
+  eexists. eexists. split; [vm_compute; reflexivity|]. split; [vm_compute; reflexivity|vm_compute; reflexivity].
 Qed.
 
 Lemma ex_ablocks_ok : ablocks_ok [0; 0] [(0%nat, to_zigzag (ex2_b 5)); (1%nat, to_zigzag (ex2_b (-3))); (0%nat, to_zigzag (ex2_b 900))].
